@@ -407,6 +407,9 @@ impl<'tcx> Cx<'tcx> {
         if let Const::Unevaluated(uv, _) = c {
             o.push(("const_def", s(self.key(uv.def))));
             o.push(("const_path", s(self.path(uv.def))));
+            if let Some(p) = uv.promoted {
+                o.push(("promoted", J::Int(p.index() as i128)));
+            }
         }
         let typing_env = TypingEnv::post_analysis(tcx, owner);
         let is_scalar = matches!(ty.kind(), ty::Bool | ty::Char | ty::Int(_) | ty::Uint(_));
@@ -804,6 +807,46 @@ impl<'tcx> Cx<'tcx> {
         Some(J::Obj(o))
     }
 
+    /// Promoted constants of a function (`&Enum::Variant`, `&CONST`): a summary of what each one refers to, when it is
+    /// a field-less enum variant (`_0 = &_1; _1 = Enum::Variant`).
+    fn promoted(&mut self, ldid: LocalDefId) -> Vec<J> {
+        let tcx = self.tcx;
+        let did = ldid.to_def_id();
+        let kind = tcx.def_kind(did);
+        let mut out = vec![];
+        if !matches!(kind, DefKind::Fn | DefKind::AssocFn | DefKind::Closure) || !tcx.is_mir_available(did) {
+            return out;
+        }
+        let proms = tcx.promoted_mir(did);
+        for (idx, pb) in proms.iter_enumerated() {
+            for data in pb.basic_blocks.iter() {
+                for st in data.statements.iter() {
+                    if let StatementKind::Assign(b) = &st.kind {
+                        let (_pl, rv) = &**b;
+                        if let Rvalue::Aggregate(ak, ops) = rv {
+                            if let AggregateKind::Adt(adid, vidx, _, _, _) = **ak {
+                                if ops.is_empty() {
+                                    let adt = tcx.adt_def(adid);
+                                    if adt.is_enum() {
+                                        let v = adt.variant(vidx);
+                                        out.push(J::Obj(vec![
+                                            ("owner", s(self.key(did))),
+                                            ("idx", J::Int(idx.index() as i128)),
+                                            ("adt", s(self.path(adid))),
+                                            ("variant", s(v.name.to_string())),
+                                            ("variant_idx", J::Int(vidx.index() as i128)),
+                                        ]));
+                                    }
+                                }
+                            }
+                        }
+                    }
+                }
+            }
+        }
+        out
+    }
+
     // -------------------------------------------------------------------------------------
     // ADTs, impls, consts
     // -------------------------------------------------------------------------------------
@@ -931,9 +974,11 @@ impl rustc_driver::Callbacks for Cb {
         let mut cx = Cx { tcx, ty_ids: HashMap::new(), ty_tab: vec![] };
 
         let mut bodies: Vec<J> = vec![];
+        let mut promoted: Vec<J> = vec![];
         for ldid in tcx.hir_body_owners() {
             if let Some(b) = cx.body(ldid) {
                 bodies.push(b);
+                promoted.extend(cx.promoted(ldid));
             }
         }
         let mut adts: Vec<J> = vec![];
@@ -962,6 +1007,7 @@ impl rustc_driver::Callbacks for Cb {
             ("adts", J::Arr(adts)),
             ("impls", J::Arr(impls)),
             ("consts", J::Arr(consts)),
+            ("promoted", J::Arr(promoted)),
         ]);
         let mut text = String::new();
         root.write(&mut text);
